@@ -23,8 +23,12 @@ E1 (histories, replay-mode BFS, mc.core.explorer).  Operations: add_picture(A|B|
 insert_picture(A) into a picture placeholder, add_movie(poster A | default poster), add_ole_object(icon A | default
 icon), save+reopen (live presentation replaced by the re-opened one), add_slide(layout with a picture placeholder);
 A = PNG, A2 = the same pixels as TIFF, B = JPEG handed over under the name B.png, I = the bytes of an image already
-in the initial deck. Initial decks: default template + 2 blank slides; a deck already containing A (slide 1, which
-also has an empty picture placeholder); corpus deck shp-picture.pptx. Oracle in EVERY state (reference model = the
+in the initial deck. Every hand-over "via path" uses ONE fixed path string whose file is rewritten with the requested
+image's bytes just before the call (model = bytes of the file at the time of the call), so histories
+"P:=A, add(P); P:=B, add(P)" arise. Initial decks: default template + 2 blank slides; a deck already containing A
+(slide 1, which also has an empty picture placeholder); corpus deck shp-picture.pptx; and (depth 2 | 3) a deck that
+already holds ten images image1..image10. E2 additionally has the family "deck holding N in {9,10,11} distinct
+images, live or re-opened, receives one new image of each format by path or stream". Oracle in EVERY state (reference model = the
 multiset of image byte strings of the initial deck + the set of byte strings handed over so far, incl. the poster
 and icon images the library supplies itself, captured as the bytes the library reads):
   * image parts under ppt/media of the saved zip == the model, each byte string stored exactly once;
@@ -370,6 +374,82 @@ def _check_size(viol, size, sdpi, dl, w, h, gw, gh, where):
                 where, gw, h, R.aspect_expected(size, sdpi, 1, h)))
 
 
+MANY_N = [9, 10, 11]
+
+
+def _many_space():
+    return [{"kind": "e2n", "n": n, "fmt": fmt, "how": how, "reopen": ro}
+            for n in MANY_N for fmt in FORMATS for how in ("path", "stream") for ro in (False, True)]
+
+
+def e2_many_case(part, case):
+    """A deck that already holds n distinct images (live, or saved and re-opened) receives one NEW image."""
+    n, fmt = case["n"], case["fmt"]
+
+    def viol(rule, attrs, what):
+        sig = "C15|%s|many-images%s" % (rule, "".join("|" + a for a in attrs))
+        rp = dict(case)
+        rp["signature"] = sig
+        part.violation(sig, "deck with %d images (%s) + new %s via %s: %s" % (
+            n, "re-opened" if case["reopen"] else "live", fmt, case["how"], what), rp)
+
+    part.count("evaluations")
+    part.add("nontrivial", ("e2n", n, fmt, case["how"], case["reopen"]))
+    inputs = [filler_image(i) for i in range(n)]
+    try:
+        prs = _deck_with_images(n)
+        if case["reopen"]:
+            prs = F.reopen(prs)
+        new = F.make_image(fmt, (3, 2), dpi=72, color=99)
+        src = _write_file("new." + CANON_EXT[fmt], new) if case["how"] == "path" else io.BytesIO(new)
+        pic = prs.slides[0].shapes.add_picture(src, 0, 0)
+        blob_ok = pic.image.blob == new
+        saved = F.save_bytes(prs)
+    except Exception as e:  # noqa: BLE001
+        viol("op-raised", [type(e).__name__], "raised %r" % (e,))
+        part.outcome("add_to_many", "raised")
+        return
+    part.outcome("add_to_many", "ok:n=%d" % n)
+    inputs.append(new)
+    if not blob_ok:
+        viol("blob", ["fmt=" + fmt], "picture.image.blob of the new picture is not the input")
+    pkg = opc_ref.read(saved)
+    names = {}
+    for m in list(pkg.members) + list(pkg.dup_members):
+        if m.lower().startswith("ppt/media/"):
+            names.setdefault(m.lower(), []).append(m)
+    for k, v in sorted(names.items()):
+        if len(v) > 1:
+            viol("dedup", ["name-collision", "name=" + re.sub(r"\d+", "N", k.rsplit("/", 1)[-1])],
+                 "media member names collide: %s" % v)
+    imgs = _media_images(pkg, {_sha(b) for b in inputs})
+    stored = {}
+    for m, b, ct in imgs:
+        stored.setdefault(_sha(b), []).append(m)
+    for i, b in enumerate(inputs):
+        lab = "new" if i == n else "existing"
+        got = stored.get(_sha(b), [])
+        if not got:
+            viol("stored-bytes", ["missing", "img=" + lab], "no image part holds the bytes of %s image #%d; parts: %s" % (
+                lab, i, sorted(m for m, _, _ in imgs)))
+        elif len(got) > 1:
+            viol("dedup", ["stored-twice", "img=" + lab], "%s image #%d stored in %s" % (lab, i, got))
+    if len(imgs) != n + 1:
+        viol("dedup", ["count"], "%d image parts, expected %d" % (len(imgs), n + 1))
+    for m, b, ct in imgs:
+        if b == new:
+            for rule, got, want in _type_errors(m, ct, fmt):
+                viol(rule, ["fmt=" + fmt, "got=" + got], "new image stored as %s (%s); wants %s" % (m, ct, want))
+    tgt, why = _shape_blip_target(pkg, _slide_members(pkg)[0], pic.shape_id)
+    if tgt is None or not pkg.has_part(tgt) or pkg.blob(tgt) != new:
+        viol("shape-image", ["zip"], "saved new picture does not resolve to the input bytes (%s)" % (why or tgt))
+
+
+def _many_worker(part, chunk):
+    for case in chunk:
+        e2_many_case(part, case)
+
+
 def _e2_worker_factory(thorough):
     def work(part, chunk):
         for case in chunk:
@@ -409,6 +489,8 @@ def _selfcheck_readers():
 
 CORPUS_INIT = "corpus:features/steps/test_files/shp-picture.pptx"
 INITS = ["two_blank", "has_A", CORPUS_INIT]
+MANY_INIT = "ten_images"   # already holds image1..image10: the next new image needs a two-digit-aware free index
+ALL_INITS = INITS + [MANY_INIT]
 
 _IMG = {}
 
@@ -426,7 +508,10 @@ def img(name):
     return _IMG[name]
 
 
-IMG_FILE = {"A": "A.png", "A2": "A2.tiff", "B": "B.png"}  # B is a JPEG called .png
+# Every hand-over "via path" uses ONE fixed path string P whose file is (re)written with the bytes of the requested
+# image immediately before the call (a chart renderer overwriting chart.png per slide): the reference model is the
+# bytes of the file at the time of the call. For B (a JPEG) the name is also a misleading one.
+FIXED_PATH_NAME = "P.png"
 
 _INIT_BLOBS = {}
 
@@ -437,6 +522,20 @@ def _pic_layout(prs):
             if "PICTURE" in str(ph.placeholder_format.type):
                 return lay
     return None
+
+
+def filler_image(i):
+    """i-th of a family of distinct small PNG images."""
+    return F.make_image("PNG", (2, 2), dpi=None, color=20 + i)
+
+
+def _deck_with_images(n):
+    """Default template + 2 blank slides holding n distinct PNG pictures (image parts image1..imageN)."""
+    prs = F.open_prs()
+    slides = [prs.slides.add_slide(prs.slide_layouts[6]), prs.slides.add_slide(prs.slide_layouts[6])]
+    for i in range(n):
+        slides[i % 2].shapes.add_picture(io.BytesIO(filler_image(i)), EMU * (1 + i % 5), EMU)
+    return prs
 
 
 def initial_blob(name):
@@ -453,6 +552,8 @@ def initial_blob(name):
         s = prs.slides.add_slide(_pic_layout(prs))
         s.shapes.add_picture(io.BytesIO(img("A")[1]), EMU, EMU)
         b = F.save_bytes(prs)
+    elif name == "ten_images":
+        b = F.save_bytes(_deck_with_images(10))
     elif name.startswith("corpus:"):
         b = F.read_bytes(os.path.join(F.REPO, name[len("corpus:"):]))
     else:
@@ -492,7 +593,7 @@ def _img_src(live, name, via):
         return io.BytesIO(b), b, "I", None
     fmt, b = img(name)
     if via == "path":
-        return _write_file(IMG_FILE[name], b), b, name, fmt
+        return _write_file(FIXED_PATH_NAME, b), b, name, fmt
     return io.BytesIO(b), b, name, fmt
 
 
@@ -822,17 +923,22 @@ def run(ctx):
         raise HarnessError("E2 generator size %d != closed form %d" % (len(cases), closed))
     nwh = len(_wh_list(thorough))
     fanout(ctx, _e2_worker_factory(thorough), ctx.rotate(cases))
-    if ctx.counters.get("evaluations", 0) != closed * nwh:
-        raise HarnessError("E2 evaluations %s != %d" % (ctx.counters.get("evaluations"), closed * nwh))
+    many = _many_space()
+    fanout(ctx, _many_worker, ctx.rotate(many))
+    if ctx.counters.get("evaluations", 0) != closed * nwh + len(many):
+        raise HarnessError("E2 evaluations %s != %d" % (ctx.counters.get("evaluations"), closed * nwh + len(many)))
     ctx.extra["space"] = {
         "formats": FORMATS, "sizes": len(SIZES_QUICK) + (len(SIZES_MORE) if thorough else 0),
         "dpi_requests": [_dpi_label(d) for d in DPI_QUICK + (DPI_MORE if thorough else [])],
         "hand_over": [v[0] for v in _name_variants("PNG", thorough)],
-        "size_args": [list(x) for x in _wh_list(thorough)], "cases": closed, "evaluations": closed * nwh}
+        "size_args": [list(x) for x in _wh_list(thorough)], "cases": closed, "evaluations": closed * nwh,
+        "decks_with_N_images_then_a_new_one": {"N": MANY_N, "formats": FORMATS, "hand_over": ["path", "stream"],
+                                               "deck": ["live", "re-opened"], "cases": len(many)}}
     # ---- E1 -------------------------------------------------------------------------------------------
     ctx.extra["alphabet"] = {"full": [_opsig([o]) for o in ALPHABET], "sub": [_opsig([o]) for o in SUB]}
-    ctx.extra["initial_decks"] = {i: [m for m, _ in init_images(i)] for i in INITS}
+    ctx.extra["initial_decks"] = {i: [m for m, _ in init_images(i)] for i in ALL_INITS}
     explorer.explore(ctx, System(INITS), 3, name="full-alphabet-depth3")
+    explorer.explore(ctx, System([MANY_INIT]), 3 if thorough else 2, name="ten-image-deck")
     if thorough:
         explorer.explore(ctx, System(INITS, SUB), 4, name="sub-alphabet-depth4")
     never = [k for k in OPS if k not in ctx.outcomes]
@@ -852,4 +958,11 @@ def replay(data):
             if sig == data["signature"]:
                 return what
         return None
-    return explorer.replay_history(System(INITS), data)
+    if data.get("kind") == "e2n":
+        part = Partial()
+        e2_many_case(part, {k: data[k] for k in ("kind", "n", "fmt", "how", "reopen")})
+        for sig, what, _ in part.violations:
+            if sig == data["signature"]:
+                return what
+        return None
+    return explorer.replay_history(System(ALL_INITS), data)
